@@ -467,6 +467,12 @@ func (vc *VC) enterLoop(b *ssa.BasicBlock, l *loopInfo) {
 	// header state: havoc phis and modified memory
 	vc.R[b] = vc.def("Rloop", SBool, or(conds...))
 	vc.curMem = pre
+	// every object mentioned by the memory at the loop head exists (is below the header's bound)
+	savePB := vc.pendingBound
+	if vc.bound != "" && vc.bound != "$A0" {
+		vc.pendingBound = vc.bound
+	}
+	defer func() { vc.pendingBound = savePB }()
 	for _, m := range l.mods {
 		if p, wild := isWildKey(m.key); wild {
 			vc.havocPrefix(vc.curMem, p)
@@ -496,6 +502,9 @@ func (vc *VC) enterLoop(b *ssa.BasicBlock, l *loopInfo) {
 			break
 		}
 		v := vc.fresh(phi.Type(), "h_"+phi.Comment)
+		if vc.bound != "" {
+			vc.objsBelow(v, vc.bound) // a loop-carried pointer refers to an object that exists
+		}
 		vc.vals[phi] = v
 		if phi.Comment != "" {
 			phiVals[phi.Comment] = v
